@@ -357,7 +357,9 @@ META = {
                 'built from a seeded subset/ordering of Absorption, CIA, '
                 'Rayleigh, SimpleClouds, FlatMie, LeeMie, H-: model(), '
                 'model(wngrid=sub), model_contrib(), model_full_contrib() (both '
-                'also restricted to a sub-range), '
+                'also restricted to a sub-range), a source added after '
+                'build(), the cache\'s interpolation mode changed under the '
+                'living model, '
                 'store_contributions(), parameter writes (incl. abundance -> 0, '
                 'x2, invalid vectors); after every evaluating op the product '
                 'relations R1-R5 and equality with a fresh model at the same '
@@ -366,7 +368,8 @@ META = {
                 'order, set of op-kind bigrams)',
         'probes': ['three_or_more_components', 'evaluate_while_invalid',
                    'parts_on_sub_grid', 'source_added_after_build',
-                   'interpolation_mode_changed_under_model'],
+                   'interpolation_mode_changed_under_model',
+                   'correlated_k_mode'],
         'real': ['TransmissionModel (both path methods), SimpleForwardModel '
                  'model/model_contrib/model_full_contrib/build',
                  'AbsorptionContribution, CIAContribution, RayleighContribution, '
@@ -381,6 +384,12 @@ META = {
             'licensed cut-off allows exp(-10) absolute',
             'proportionality (R5) uses trace abundances <= 5e-7 and -ln T in '
             '[1e-5, 20], tolerance 2e-4',
+            'a share of runs is in correlated-k mode (pickle k-tables on the '
+            'scratch store): there the per-molecule product (R2), the '
+            'weighting recomputation (R7) and proportionality (R5) of the '
+            'Absorption source are not demanded (molecules share the '
+            'quadrature points); composition over sources, add-order '
+            'independence, zero abundance and history independence are',
             'a factor common to all components is invisible to these '
             'relations (C01 ground, not applicable)',
             'nothing is demanded at the moment an exception escapes inside the '
